@@ -658,6 +658,19 @@ def mutate_envelope(tpl: Template, cls: str, v: int) -> bytes:
             header.remove(mid)
         else:
             mid.text = ''
+    elif cls in ('addr_replyto', 'addr_faultto', 'addr_from'):
+        tag = {'addr_replyto': 'ReplyTo', 'addr_faultto': 'FaultTo', 'addr_from': 'From'}[cls]
+        for old in header.findall(f'{{{WSA}}}{tag}'):
+            header.remove(old)
+        epr = etree.SubElement(header, f'{{{WSA}}}{tag}')
+        addr = etree.SubElement(epr, f'{{{WSA}}}Address')
+        addr.text = ('http://192.0.2.7:6464/reply/here', 'urn:uuid:3e1ad4b0-7a1c-4b6e-9f0e-0123456789ab',
+                     'http://www.w3.org/2005/08/addressing/none')[v % 3]
+    elif cls == 'addr_foreign_header':
+        el = etree.SubElement(header, '{urn:verif:c13:headers}Trace')
+        el.text = 'x' * (1 + 40 * (v % 3))
+        if v % 2:
+            el.set(f'{{{S12}}}mustUnderstand', 'false')
     elif cls in ('num_huge', 'num_negative'):
         found = _find_number(root)
         if found is None:
